@@ -351,22 +351,20 @@ impl WalWriter {
             ))
         })?;
 
-        vpoint!("wal.before_record", &self.path);
-        // Write entry size first (for recovery)
-        let size_bytes = (serialized.len() as u32).to_le_bytes();
-        self.file.write_all(&size_bytes).map_err(|e| {
-            P2PError::Storage(StorageError::Database(
-                format!("Failed to write entry size: {e}").into(),
-            ))
-        })?;
-
-        vpoint!("wal.after_size", &self.path);
-        // Write entry data
-        self.file.write_all(&serialized).map_err(|e| {
-            P2PError::Storage(StorageError::Database(
-                format!("Failed to write WAL entry: {e}").into(),
-            ))
-        })?;
+        // Actual end of the log (recovery may have cut a torn tail off since the
+        // writer was opened)
+        let record_start = self
+            .file
+            .metadata()
+            .map(|m| m.len())
+            .unwrap_or(self.current_size);
+        self.current_size = record_start;
+        if let Err(e) = self.write_record(&serialized) {
+            // Do not leave a partial record behind: later records would be appended
+            // after it and could not be framed on recovery.
+            let _ = self.file.set_len(record_start);
+            return Err(e);
+        }
         vpoint!("wal.after_record", &self.path);
 
         self.current_size += 4 + serialized.len() as u64;
@@ -420,6 +418,27 @@ impl WalWriter {
             }
         }
 
+        Ok(())
+    }
+
+    /// Write one length-prefixed record
+    fn write_record(&mut self, serialized: &[u8]) -> Result<()> {
+        vpoint!("wal.before_record", &self.path);
+        // Write entry size first (for recovery)
+        let size_bytes = (serialized.len() as u32).to_le_bytes();
+        self.file.write_all(&size_bytes).map_err(|e| {
+            P2PError::Storage(StorageError::Database(
+                format!("Failed to write entry size: {e}").into(),
+            ))
+        })?;
+
+        vpoint!("wal.after_size", &self.path);
+        // Write entry data
+        self.file.write_all(serialized).map_err(|e| {
+            P2PError::Storage(StorageError::Database(
+                format!("Failed to write WAL entry: {e}").into(),
+            ))
+        })?;
         Ok(())
     }
 
